@@ -67,8 +67,8 @@ theorem insertCore_appends (now : Int) (c0 : Coll) (fs1 : Fields) (c' : Coll) (i
   obtain ⟨_, _, c1, he, _, hu⟩ := insertCore_spec now c0 fs1 c' id hid h
   rw [expire_noTtl now c0 hn] at he
   cases he
-  have := ensureUniques_noTtl now _ _ c' (by rw [setDoc_ttl]; exact hn) hu
-  rw [this, setDoc_ttl]
+  have := ensureUniques_noTtl now _ _ c' (by rw [storeDoc_ttlIndexes, setDoc_ttl]; exact hn) hu
+  rw [this, storeDoc_ttlIndexes, setDoc_ttl]
   exact hn
 
 theorem insertDoc_appends (now : Int) (c c' : Coll) (d id : Val) (hn : c.ttlIndexes = [])
